@@ -7,7 +7,7 @@ def short(s, n=150):
     return s if len(s) <= n else s[:n - 1] + "…"
 rows = []
 for d in sorted(os.listdir(R)):
-    if not re.match(r"^C\d\d(r\d)?$", d): continue
+    if not re.match(r"^C\d\d(r\d[a-z]?)?$", d): continue
     m = json.load(open(f"{R}/{d}/meta.json"))
     caught = sorted(re.sub(r"caught_by_(C\d\d)\.json", r"\1", os.path.basename(f)) for f in glob.glob(f"{R}/{d}/caught_by_*.json"))
     rows.append((d, short(m.get("summary") or m.get("what") or "", 170), m.get("missed_first", "") + (": " + m["strengthening"] if m.get("strengthening") else ""), ", ".join(caught)))
